@@ -181,7 +181,8 @@ class StreamableHTTPTransport(Transport):
         try:
             # Convert message to dict
             if hasattr(message, "model_dump"):
-                message_dict = message.model_dump(exclude_none=True)
+                # (by_alias: typed objects inside the message go out under their wire names)
+                message_dict = message.model_dump(exclude_none=True, by_alias=True)
             elif isinstance(message, dict):
                 message_dict = message
             else:
